@@ -1553,7 +1553,8 @@ where
     #[inline(always)]
     pub fn skip_one(&mut self) -> Result<(&'de [u8], ParseStatus)> {
         let ch = self.skip_space();
-        let start = self.read.index() - 1;
+        // the index is 0 when the input is empty, so the subtraction must not overflow
+        let start = self.read.index().saturating_sub(1);
         let mut status = ParseStatus::None;
         match ch {
             Some(c @ b'-' | c @ b'0'..=b'9') => {
@@ -1579,7 +1580,8 @@ where
     #[inline(always)]
     pub fn skip_one_unchecked(&mut self) -> Result<(&'de [u8], ParseStatus)> {
         let ch = self.skip_space();
-        let start = self.read.index() - 1;
+        // the index is 0 when the input is empty, so the subtraction must not overflow
+        let start = self.read.index().saturating_sub(1);
         let mut status = ParseStatus::None;
         match ch {
             Some(b'-' | b'0'..=b'9') => self.skip_number_unsafe(),
